@@ -21,6 +21,7 @@ RULE += " After every portfolio construction the broker's holdings report is rea
 RULE += " 30% of the driver cases keep ONE real StaticUniverse object for all rebalances and are judged against the universe as configured. Sessions include a time-varying 'switch' alpha that weights an asset outside the static universe for a while and then drops it (the asset set shrinks)."
 RULE += ' The PCM driver overwrites the quantities in ITS copy of the holdings report right after reading it.'
 RULE += ' Round 11: whole-number alpha weights arrive as ints, every third rebalance as numpy integers.'
+RULE += " Round 13: the 'switch' alpha may stand aside (all weights zero, book in cash) for a stretch and re-enter at moved prices."
 ASSUMPTIONS = ['the target is the sizer\'s own output (its correctness is C10/C11)']
 
 
